@@ -69,6 +69,15 @@ def _clean():
     span_token.reset_tokens()
 
 
+# Directed members of the domain (seed-independent): the minimal input of every root-cause class
+# that the enumeration found on the pinned tree; each is run with every L in 1..40.
+DIRECTED = [
+    '```a fox``q```\n', '![a a](x)\n', 'yz!\\\n[a](<http://example.com/with space>)\\\nbe over\n',
+    '\n[![markdown!][Foo  Bar]](a%20b ) a\n===\n', 'wrap!\\\n[a `rendering` of](/frag (lazy yz size the wrap jumps) ) a\n',
+    '> aaa bbb ccc\n', '- aaa bbb ccc\n', '1. > - aaa bbb ccc ddd\n',
+]
+
+
 def html_of(text):
     _clean()
     with HtmlRenderer() as h:
@@ -291,6 +300,8 @@ def work(chunk):
             tree, x = None, mdgen.stack_doc(ident)
             name = 'stack:%s' % ''.join(map(str, ident))
             res['maxdepth'] = max(res['maxdepth'], len(ident))
+        elif kind == 'directed':
+            tree, x, name = None, DIRECTED[ident], 'directed:%d' % ident
         else:
             tree, x = mdgen.gen(ident, kind)
             name = 'gen:%s:%d' % (kind, ident)
@@ -354,6 +365,7 @@ def run(tier, seed, workers):
     for d in range(depth):
         stacks += [s + (i,) for s in stacks if len(s) == d for i in range(len(mdgen.STACK_PREFIXES))]
     cases += [('stack', s, stack_ls) for s in stacks]
+    cases += [('directed', i, list(range(1, 41))) for i in range(len(DIRECTED))]
     # generated documents: small set x (all L | a seeded third), big set x sampled L
     n_small, n_big, k_big = (500, 2500, 6) if quick else (2500, 25000, 8)
     full = full_ls(tier, seed)
@@ -404,13 +416,13 @@ def run(tier, seed, workers):
     for f in fl:
         minimal.setdefault(f['class'], {'contract': f['contract'], 'key': f['key'], 'input': f['input']})
     out.update({
-        'domain': ('STACKS: all container stacks of depth 0..%d over the prefixes %r around the paragraph '
+        'domain': ('DIRECTED: %d seed-independent documents (one per known root-cause class) x L in 1..40; STACKS: all container stacks of depth 0..%d over the prefixes %r around the paragraph '
                    '"aaa bbb ccc ddd" (%d documents) x L in 1..%d; DOCS: %d mdgen documents (modes reflow / '
                    'reflowfree alternating, container nesting <= 4, measured max depth %d) x %s, plus %d '
                    'documents x %d seeded L values (+ 1,2,3,4) each; generator seeds %d.. ; L range 1..%d. '
                    'Prose words cannot be mistaken for block markers; no raw inline HTML, escapes or '
                    'character references'
-                   % (depth, mdgen.STACK_PREFIXES, len(stacks), stack_ls[-1], n_small, maxdepth,
+                   % (len(DIRECTED), depth, mdgen.STACK_PREFIXES, len(stacks), stack_ls[-1], n_small, maxdepth,
                       'every L in 1..120' if not quick else 'a seeded third of 1..120 (%d values incl. %r)' % (len(full), FIXED_L),
                       n_big, k_big, base, LMAX)),
         'rule': ('a case is a pair (document, L); it is non-trivial iff the reflowed output differs from '
